@@ -157,7 +157,7 @@ func (p *Program) VerifyFunc(fc *FuncContract) (res *FuncResult) {
 	x.execRegion(fr, nil, pending, env)
 	// postconditions at every return
 	for ri, r := range fr.returns {
-		pe := &CEnv{x: x, fr: fr, st: r.st, old: fr.entry, vars: map[string]*Val{}, lets: ce.lets, guard: r.cond, fc: fc, env: env}
+		pe := &CEnv{x: x, fr: fr, st: r.st, old: fr.entry, vars: map[string]*Val{}, lets: ce.lets, guard: r.cond, fc: fc, env: env, at: r.blk}
 		for k, v := range vars {
 			pe.vars[k] = v
 		}
